@@ -1,39 +1,56 @@
 """C19 — Reingold-Tilford coordinates form a tidy, non-overlapping drawing.
 
 Tie: (x, y) of every node from the real `reingold_tilford` (binary64) against the Lean model
-`Plot.layout` (exact rationals), within 1e-9.  Oracle: the clauses of the property read off the
-real coordinates.  Known finding K1: the cousin-separation clause is false of the pinned
-algorithm (Lean: `C19.rt_full_false`); a cousin failure is K1 exactly when the real coordinates
-of that case still equal the pinned model's coordinates.
+`Plot.layoutS` (exact rationals), within 1e-9, after EVERY layout of a history
+[layout, structural edit, layout, ...] on the same node objects (the `shift` attribute survives
+between runs; the model carries it).  Oracle: the clauses of the property read off the real
+coordinates after every layout.  Known finding K1: the cousin-separation clause is false of the
+pinned algorithm (Lean: `C19.rt_full_false`); a cousin failure is K1 exactly when the real
+coordinates of that case still equal the pinned model's coordinates.
 """
 from __future__ import annotations
-import os, random, subprocess
+import itertools, os, random, subprocess
 from fractions import Fraction
 import core
 from runner import Case
 
 THEOREMS = [
     "C19.rt_levels", "C19.rt_midpoint", "C19.rt_siblings", "C19.rt_nonneg", "C19.rt_full_false",
-    "C19.rt_shape", "Plot.gss_fuel_sufficient", "Plot.firstPass_good",
+    "C19.rt_shape", "C19.rt_entry_independent", "C19.rt_clear_needed",
+    "Plot.gss_fuel_sufficient", "Plot.firstPass_good", "Plot.firstPass_q",
 ]
 PROOF_IMPORTS = ["BigtreeProofs.Properties.C19"]
 EPS = Fraction(1, 10**9)
 SEPS = ["1/2", "1", "3/2", "2", "3"]
 OFFS = ["0", "0", "1/2", "1", "5/2", "7"]
 
-RULE = ("every ordered tree shape up to N nodes (quick N=7: 197 shapes, thorough N=8: 626) x every "
+RULE = ("(a) every ordered tree shape up to N nodes (quick N=7: 197 shapes, thorough N=8: 626) x every "
         "(sibling, subtree) separation pair from {1/2,1,3/2,2,3}^2 with level separation and the two "
-        "offsets drawn from {1/2,1,3/2,2,3} / {0,1/2,1,5/2,7}; plus seeded random trees with 8..30 nodes "
-        "(shapes: bushy, path, caterpillar, one deep branch, uniform, 'recent parent') and a corpus (K1 "
-        "witness, docstring tree, wide fans over deep middles). reingold_tilford rejects nothing, so there "
-        "is no malformed stream. A case is non-trivial when some node has two children that both have "
-        "children (the contour comparison of _get_subtree_shift actually recurses); distinct = distinct "
-        "protocol lines")
+        "offsets drawn from {1/2,1,3/2,2,3} / {0,1/2,1,5/2,7}; (b) seeded random trees with 8..30 nodes "
+        "(bushy, path, caterpillar, one deep branch, uniform, 'recent parent'); (c) height-profile family: a "
+        "node with k=3..6 child-bearing children taken from a catalogue of chains / chains ending in a fan / "
+        "fans over a fan (heights 1..4, widths 2..5), all k=3 combinations enumerated, k>=4 and nested / "
+        "leaf-interleaved variants sampled, plus the enumerated tall-short-tall family (10 deep wide lefts x 5 "
+        "short middles x 13 rights whose left contour reaches left below) and its variants with extra siblings; the tag far>0 counts cases where, for some node, the maximal "
+        "_get_subtree_shift over its left siblings is NOT attained at the nearest colliding left sibling "
+        "(measured by the instrumented model driver); (d) histories on the same node objects: layout, then "
+        "1..3 rounds of structural edits (detach a node, insert a fresh subtree as first child, append a fresh "
+        "subtree, reverse a child list, re-attach a previously laid-out subtree elsewhere) each followed by a "
+        "re-layout; every layout is compared with the model and checked by the oracle; (e) a corpus (K1 witness, docstring tree, the D9 witness history, the seeded-mutant demos). "
+        "reingold_tilford rejects nothing, so there is no malformed stream. A case is non-trivial when some "
+        "node has two children that both have children (the contour comparison recurses); distinct = "
+        "distinct protocol lines")
 EXHAUSTIVE = {
     "quick": "all 197 ordered rooted trees with <= 7 nodes x all 25 (sibling_separation, subtree_separation) "
-             "pairs from {1/2,1,3/2,2,3}^2 (level separation and offsets sampled per case)",
+             "pairs from {1/2,1,3/2,2,3}^2 (level separation and offsets sampled per case); all 9^3 = 729 "
+             "three-child height profiles over the 9-shape catalogue (separations 1/1 and one sampled pair); all 650 "
+             "tall-short-tall triples x 2 separation pairs",
     "thorough": "all 626 ordered rooted trees with <= 8 nodes x all 25 (sibling_separation, subtree_separation) "
-                "pairs from {1/2,1,3/2,2,3}^2; all 65 trees with <= 6 nodes x all 125 separation triples",
+                "pairs from {1/2,1,3/2,2,3}^2; all 65 trees with <= 6 nodes x all 125 separation triples; all "
+                "17^3 = 4913 three-child height profiles over the 17-shape catalogue x 4 separation pairs; all "
+                "9^4 = 6561 four-child profiles over the 9-shape catalogue; all 650 tall-short-tall triples x 5 separation "
+                "pairs; all single-detach histories "
+                "(layout, detach node v, layout) for every non-root node v of every tree with <= 7 nodes",
 }
 MODELLED = [
     "C19: the model computes reingold_tilford over exact rationals (core Lean Rat); Python computes over "
@@ -41,27 +58,36 @@ MODELLED = [
     "Rounding error itself is not verified",
     "node attributes x/mod/shift/y are modelled as fields of an annotated rose tree; the in-place shift "
     "updates on not-yet-visited right siblings are modelled by the pending-shift vector of the sibling loop",
+    "entry state: x/mod/y are overwritten before they are read; shift is read with a default, so the model "
+    "input is the shape plus the shift each node carries (0 = none); reingold_tilford (after repair D9) first "
+    "pops every shift (ST.clear), then runs the three passes (Plot.passes); the model returns the stored "
+    "shifts (Plot.stored) so that histories can be chained; structural edits between runs are modelled "
+    "positionally (ST.modifyAt, ST.move); detached subtrees that are not re-attached are dropped",
     "the Python recursion of _get_subtree_shift is modelled with fuel = height of the left subtree + 1; "
     "Plot.gss_fuel_sufficient proves that any larger fuel gives the same result (the out-of-fuel branch is dead)",
+    "BinaryNode trees are outside the domain: reingold_tilford raises AttributeError on every BinaryNode tree "
+    "(a binary leaf's children are (None, None) and _first_pass recurses into None)",
 ]
 ASSUMPTIONS = [
-    "reingold_tilford is called on the root of a Node/BaseNode tree that carries no x/mod/shift attribute on "
-    "entry (a second run re-uses the stale shift; DESIGN section 5)",
-    "BinaryNode trees are outside the domain: reingold_tilford raises AttributeError on every BinaryNode tree "
-    "(a binary leaf's children are (None, None) and _first_pass recurses into None); not generated",
+    "reingold_tilford is called on the root of a Node/BaseNode tree (not a BinaryNode tree: AttributeError on "
+    "every one of them); nodes may carry x/mod/shift/y attributes of earlier runs (histories are generated)",
     "separations are positive; offsets are non-negative (the theorems need no sign condition except "
     "0 < sibling_separation for the strict left-to-right order)",
 ]
-LEVEL_TEXT = ("partial: proved for the rational model for all trees and parameters - y is a function of depth "
-              "with step level_separation (rt_levels), every parent is the mid-point of its first and last "
-              "child (rt_midpoint), consecutive siblings are in order and >= sibling_separation apart "
-              "(rt_siblings), no x is negative (rt_nonneg). The cousin clause of the statement is FALSE of the "
-              "code (known finding K1): rt_full_false proves the negation on the 10-node witness")
-LEVEL_NOTE = ("the tie (real floats vs. rational model within 1e-9) carries the step from the model to the code; "
-              "binary64 rounding is not verified")
+LEVEL_TEXT = ("partial: proved for the rational model for all trees, all parameters and all entry states - y is a "
+              "function of depth with step level_separation (rt_levels), every parent is the mid-point of its "
+              "first and last child (rt_midpoint), consecutive siblings are in order and >= sibling_separation "
+              "apart (rt_siblings), no x is negative (rt_nonneg), the drawing has the shape of the tree "
+              "(rt_shape) and does not depend on attributes left by earlier runs (rt_entry_independent; without "
+              "the clearing step of repair D9 the sibling clause fails: rt_clear_needed). The cousin clause of "
+              "the statement is FALSE of the code (known finding K1): rt_full_false proves the negation on the "
+              "10-node witness")
+LEVEL_NOTE = ("the tie (real floats vs. rational model within 1e-9, after every layout of a history) carries the "
+              "step from the model to the code; binary64 rounding is not verified")
 TECHNIQUE = ("Lean 4 proof over an executable rational model of the three passes (structural/fuel recursion "
-             "mirroring plot.py) + differential correspondence check of all coordinates + model-free oracle "
-             "of the five clauses on the real coordinates")
+             "mirroring plot.py, entry shifts as input, stored shifts as output) + differential correspondence "
+             "check of all coordinates over layout/edit histories + model-free oracle of the five clauses on the "
+             "real coordinates after every layout")
 NOT_READY = False
 
 # ---------------------------------------------------------------- case construction
@@ -71,21 +97,27 @@ def spec_from_shape(shape):
 
 
 def _line(d):
-    return ("sib=%s sub=%s lvl=%s xoff=%s yoff=%s T " % (d["sib"], d["sub"], d["lvl"], d["xoff"], d["yoff"])
+    return ("sib=%s sub=%s lvl=%s xoff=%s yoff=%s ops=%s T " % (
+                d["sib"], d["sub"], d["lvl"], d["xoff"], d["yoff"], ";".join(d.get("ops") or ["L"]))
             + core.enc_tree(spec_from_shape(d["shape"])))
 
 
-def mk_case(shape, sib, sub, lvl, xoff, yoff, tags=()):
-    d = {"shape": shape, "sib": sib, "sub": sub, "lvl": lvl, "xoff": xoff, "yoff": yoff}
+def mk_case(shape, sib, sub, lvl, xoff, yoff, tags=(), ops=None):
+    """ops: history on the same nodes (protocol tokens, see Drv/C19.lean); default one layout"""
+    d = {"shape": shape, "sib": sib, "sub": sub, "lvl": lvl, "xoff": xoff, "yoff": yoff, "ops": list(ops or ["L"])}
     n = core.shape_size(shape)
-    extra = ("n=%d" % n if n <= 8 else "n=9..30",
+    extra = ("n=%d" % n if n <= 8 else ("n=9..30" if n <= 30 else "n>30"),
              "depth=%d" % core.shape_depth(shape), "fanout=%d" % core.shape_fanout(shape),
              "contour" if _contour(shape) else "no-contour")
+    if len(d["ops"]) > 1:
+        extra += ("history", "layouts=%d" % d["ops"].count("L"))
     return Case(_line(d), d, tuple(tags) + extra)
 
 
 def rehydrate(case):
-    return Case(case.line, case.data)
+    d = dict(case.data)
+    d.setdefault("ops", ["L"])
+    return Case(case.line, d)
 
 
 def _contour(shape) -> bool:
@@ -110,10 +142,69 @@ def recent_parent_shape(rng: random.Random, size: int):
     return build(0)
 
 
+# ---- height-profile family (shapes are nested lists of children; [] = leaf)
+
+def cf(h: int, w: int):
+    """chain of h nodes whose last node carries a fan of w leaves (w = 0: plain chain)"""
+    node = [[] for _ in range(w)]
+    for _ in range(h - 1):
+        node = [node]
+    return node
+
+
+def tf_first(w: int, w2: int):
+    """fan of w children, the FIRST of which carries a fan of w2 leaves"""
+    return [cf(1, w2)] + [[] for _ in range(w - 1)]
+
+
+def tf_last(w: int, w2: int):
+    return [[] for _ in range(w - 1)] + [cf(1, w2)]
+
+
+CAT9 = [cf(1, 0), cf(2, 0), cf(3, 0), cf(1, 3), cf(2, 3), cf(2, 5), cf(3, 2), tf_first(3, 5), tf_last(3, 5)]
+CAT17 = CAT9 + [cf(4, 0), cf(1, 2), cf(1, 5), cf(2, 2), cf(3, 3), cf(3, 5), tf_first(2, 3), tf_last(2, 3)]
+
+
+def _copy(s):
+    return [_copy(c) for c in s]
+
+
+# tall - short - tall: a deep, wide left subtree; a short middle one that is slightly in the way of the
+# right one; a right subtree whose left contour reaches far to the left one or two levels down
+TST_LEFTS = ([cf(2, w) for w in (2, 3, 5)] + [cf(3, w) for w in (2, 3, 5)]
+             + [tf_last(2, 3), tf_last(3, 5), [tf_last(2, 3)], [[], cf(2, 3)]])
+TST_MIDS = [cf(2, 0), cf(2, 2), cf(1, 2), cf(3, 0), [[[]], []]]
+TST_RIGHTS = ([tf_first(w, w2) for w in (2, 3, 4) for w2 in (2, 3, 5)]
+              + [[tf_first(2, 3)], [tf_first(3, 5)], [cf(2, 5), [], []], [cf(2, 3), []]])
+
+
+def profile_variant(rng: random.Random, kids):
+    """nest / interleave a profile group: returns a root shape"""
+    kids = [_copy(k) for k in kids]
+    v = rng.randrange(5)
+    if v == 0:      # leaves interleaved between the subtrees
+        out = []
+        for k in kids:
+            out.append(k)
+            if rng.random() < 0.5:
+                out.append([])
+        return out
+    if v == 1:      # the group one level down, under the middle child of a small root
+        return [[], kids, [[]]] if rng.random() < 0.5 else [[[], []], kids]
+    if v == 2:      # two levels down
+        return [[kids, []], [[], [[]]]]
+    if v == 3:      # the group next to another profile group
+        other = [_copy(rng.choice(CAT9)) for _ in range(3)]
+        return [kids, other] if rng.random() < 0.5 else [other, [], kids]
+    return kids
+
+
 K1_SHAPE = [[], [[], [[]]], [[[], []]]]            # r(a, b(c, d(e)), f(g(h, i)))
 DOC_SHAPE = [[[], [[], []]], [[]]]                 # docstring: a(b(d, e(g, h)), c(f))
+M3_SHAPE = [cf(2, 5), cf(2, 0), tf_first(3, 5)]    # seeded C19-m3 demo: tall - short - tall
+M2_SHAPE = [cf(1, 3), cf(1, 3), cf(1, 2)]          # seeded C19-m2 demo: root(A(3), B(3), C(2))
 CORPUS = [
-    K1_SHAPE, DOC_SHAPE, [],
+    K1_SHAPE, DOC_SHAPE, [], M3_SHAPE, M2_SHAPE,
     [[[[[]]]], [], [], [[[[]]]]],                   # two deep outer subtrees, leaves between
     [[], [], [[[], [], []]], [], [[[[]]]], []],     # wide fan over deep middles
     [[[], []], [[], []], [[], []], [[], []]],       # four equal subtrees (idx scaling 1/3, 2/3)
@@ -123,27 +214,173 @@ CORPUS = [
     [[[[[], [], []]]], [[[[], [], []]]], [[[[], [], []]]]],
     [[], [[], [[]]], [[[], []]], [[[], [], [[], []]]]],
 ]
+CORPUS_HISTORIES = [
+    (M2_SHAPE, ["L", "Er:()", "L"]),                # D9 witness: append D after a layout => D right of C
+    (M2_SHAPE, ["L", "Er:()", "L", "L", "Rr", "L"]),
+    (M2_SHAPE, ["L", "D0", "L"]),                   # seeded C19-m2 demo: prune the leading subtree, re-layout
+    (M2_SHAPE, ["L", "L", "D0", "L", "D0", "L"]),
+    (M2_SHAPE, ["L", "M1>0", "L", "M0.3>r", "L"]),  # re-attach a laid-out subtree elsewhere and back
+    (M3_SHAPE, ["L", "D1", "L", "Fr:(())", "L"]),
+    (K1_SHAPE, ["L", "D0", "L", "D0.0", "L"]),
+]
+
+
+# ---- histories: shapes are edited positionally, exactly like Drv/C19.lean does
+
+def _addr_str(addr):
+    return ".".join(str(i) for i in addr) if addr else "r"
+
+
+def _sh_str(shape):
+    return "(" + "".join(_sh_str(c) for c in shape) + ")"
+
+
+def _parse_sh(s):
+    pos = 0
+    def go():
+        nonlocal pos
+        if s[pos] != "(":
+            raise ValueError(s)
+        pos += 1
+        kids = []
+        while s[pos] != ")":
+            kids.append(go())
+        pos += 1
+        return kids
+    t = go()
+    if pos != len(s):
+        raise ValueError(s)
+    return t
+
+
+def _addrs(shape, addr=()):
+    out = [addr]
+    for k, c in enumerate(shape):
+        out.extend(_addrs(c, addr + (k,)))
+    return out
+
+
+def _at(shape, addr):
+    for i in addr:
+        shape = shape[i]
+    return shape
+
+
+def apply_op_shape(shape, op):
+    """shape after an edit op (in place on a copy); raises ValueError/IndexError on a bad address"""
+    shape = _copy(shape)
+    kind = op[0]
+    if kind == "L":
+        return shape
+    body = op[1:]
+    if kind == "D":
+        addr = [int(x) for x in body.split(".")]
+        del _at(shape, addr[:-1])[addr[-1]]
+    elif kind == "R":
+        _at(shape, _parse_addr(body)).reverse()
+    elif kind == "M":
+        a, b = body.split(">")
+        addr = [int(x) for x in a.split(".")]
+        sub = _at(shape, addr)
+        del _at(shape, addr[:-1])[addr[-1]]
+        _at(shape, _parse_addr(b)).append(sub)
+    elif kind in "FE":
+        a, sh = body.split(":")
+        kids = _at(shape, _parse_addr(a))
+        if kind == "F":
+            kids.insert(0, _parse_sh(sh))
+        else:
+            kids.append(_parse_sh(sh))
+    else:
+        raise ValueError(op)
+    return shape
+
+
+def _parse_addr(a):
+    return [] if a == "r" else [int(x) for x in a.split(".")]
+
+
+FRESH = [[], [], [[]], [[], []], [[], [[], []]], [[[]], []]]
+
+
+def random_history(rng: random.Random, shape, rounds: int):
+    ops = ["L"]
+    cur = _copy(shape)
+    if rng.random() < 0.15:
+        ops.append("L")                               # plain re-layout of the unchanged tree
+    for _ in range(rounds):
+        for _e in range(rng.choice([1, 1, 1, 2, 3])):
+            addrs = _addrs(cur)
+            kind = rng.choice(["D", "D", "D", "F", "E", "E", "R", "M", "M"])
+            if kind == "D":
+                cands = [a for a in addrs if a]
+                if rng.random() < 0.6:                # prefer leading siblings (a shifted node becomes children[0])
+                    lead = [a for a in cands if a[-1] == 0 and len(_at(cur, a[:-1])) >= 2]
+                    cands = lead or cands
+                if not cands:
+                    continue
+                op = "D" + _addr_str(rng.choice(cands))
+            elif kind == "R":
+                cands = [a for a in addrs if len(_at(cur, a)) >= 2]
+                if not cands:
+                    continue
+                op = "R" + _addr_str(rng.choice(cands))
+            elif kind == "M":
+                cands = [a for a in addrs if a]
+                if not cands:
+                    continue
+                frm = rng.choice(cands)
+                after = apply_op_shape(cur, "D" + _addr_str(frm))
+                op = "M" + _addr_str(frm) + ">" + _addr_str(rng.choice(_addrs(after)))
+            else:
+                op = kind + _addr_str(rng.choice(addrs)) + ":" + _sh_str(rng.choice(FRESH))
+            cur = apply_op_shape(cur, op)
+            ops.append(op)
+        ops.append("L")
+    return ops
+
+
+def _driver_stats(cases):
+    """far-counts from the instrumented model driver (statistics for the tags only)"""
+    exe = os.path.join(os.path.dirname(os.path.dirname(os.path.abspath(__file__))), "..", "lean", ".lake",
+                       "build", "bin", "btmodel_C19")
+    if not os.path.exists(exe):
+        return [None] * len(cases)
+    inp = "".join("C19 stat=1 " + c.line + "\n" for c in cases)
+    try:
+        p = subprocess.run([exe], input=inp, capture_output=True, text=True, timeout=600)
+        outs = p.stdout.split("\n")[:len(cases)]
+        res = [int(o[4:]) if o.startswith("far=") else None for o in outs]
+        return res + [None] * (len(cases) - len(res))
+    except Exception:
+        return [None] * len(cases)
 
 
 def gen(rng: random.Random, tier: str):
     cases = []
     pick = rng.choice
+    quick = tier == "quick"
     for shape in CORPUS:
-        for sib, sub in (("1", "1"), ("1/2", "2"), ("3", "1/2"), ("3/2", "3/2")):
+        for sib, sub in (("1", "1"), ("1/2", "2"), ("3", "1/2"), ("3/2", "3/2"), ("2", "3"), ("1", "1/2")):
             cases.append(mk_case(shape, sib, sub, "1", "0", "0", tags=("corpus",)))
         cases.append(mk_case(shape, pick(SEPS), pick(SEPS), pick(SEPS), pick(OFFS), pick(OFFS), tags=("corpus",)))
-    nmax = 7 if tier == "quick" else 8
+    for shape, ops in CORPUS_HISTORIES:
+        for sib, sub in (("1", "1"), ("1/2", "2"), ("3", "1/2")):
+            cases.append(mk_case(shape, sib, sub, "1", "0", "0", tags=("corpus",), ops=ops))
+    # (a) exhaustive small shapes
+    nmax = 7 if quick else 8
     for shape in core.all_shapes_upto(nmax):
         for sib in SEPS:
             for sub in SEPS:
                 cases.append(mk_case(shape, sib, sub, pick(SEPS), pick(OFFS), pick(OFFS), tags=("enum",)))
-    if tier == "thorough":
+    if not quick:
         for shape in core.all_shapes_upto(6):
             for sib in SEPS:
                 for sub in SEPS:
                     for lvl in SEPS:
                         cases.append(mk_case(shape, sib, sub, lvl, pick(OFFS), pick(OFFS), tags=("enum3",)))
-    nr = 4000 if tier == "quick" else 40000
+    # (b) random larger trees
+    nr = 4000 if quick else 40000
     for k in range(nr):
         size = rng.randint(8, 30)
         if k % 3 == 0:
@@ -157,45 +394,176 @@ def gen(rng: random.Random, tier: str):
         else:
             sib, sub, lvl = pick(SEPS), pick(SEPS), pick(SEPS)
         cases.append(mk_case(shape, sib, sub, lvl, pick(OFFS), pick(OFFS), tags=(tag,)))
+    # (c) height-profile family
+    prof = []
+    cat3 = CAT9 if quick else CAT17
+    pairs3 = [("1", "1")] if quick else [("1", "1"), ("1/2", "2"), ("2", "1/2")]
+    for kids in itertools.product(cat3, repeat=3):
+        shape = [_copy(k) for k in kids]
+        for sib, sub in pairs3:
+            prof.append(mk_case(shape, sib, sub, "1", "0", "0", tags=("profile", "profile-k3")))
+        prof.append(mk_case(shape, pick(SEPS), pick(SEPS), pick(SEPS), pick(OFFS), pick(OFFS),
+                            tags=("profile", "profile-k3")))
+    if quick:
+        for _ in range(600):
+            shape = [_copy(pick(CAT9)) for _ in range(4)]
+            prof.append(mk_case(shape, pick(SEPS), pick(SEPS), "1", "0", "0", tags=("profile", "profile-k4")))
+    else:
+        for kids in itertools.product(CAT9, repeat=4):
+            prof.append(mk_case([_copy(k) for k in kids], pick(SEPS), pick(SEPS), "1", "0", "0",
+                                tags=("profile", "profile-k4")))
+    tst_pairs = [("1", "1"), ("2", "1/2")] if quick else [("1", "1"), ("2", "1/2"), ("1/2", "2"), ("3", "1"), ("3/2", "3/2")]
+    for l, m, r in itertools.product(TST_LEFTS, TST_MIDS, TST_RIGHTS):
+        for sib, sub in tst_pairs:
+            prof.append(mk_case([_copy(l), _copy(m), _copy(r)], sib, sub, "1", "0", "0", tags=("profile", "profile-tst")))
+    for _ in range(500 if quick else 5000):
+        kids = [_copy(pick(TST_LEFTS)), _copy(pick(TST_MIDS)), _copy(pick(TST_RIGHTS))]
+        for _x in range(pick([1, 1, 2])):           # extra siblings (leaf or catalogue shape) anywhere
+            kids.insert(rng.randrange(len(kids) + 1), _copy(pick([[], [], cf(2, 0)] + CAT9)))
+        shape = kids if rng.random() < 0.6 else profile_variant(rng, kids)
+        prof.append(mk_case(shape, pick(SEPS), pick(SEPS), pick(SEPS), pick(OFFS), pick(OFFS),
+                            tags=("profile", "profile-tst+")))
+    for _ in range(300 if quick else 3000):
+        k = pick([5, 6])
+        shape = [_copy(pick(CAT17 if rng.random() < 0.5 else CAT9[1:])) for _ in range(k)]
+        prof.append(mk_case(shape, pick(SEPS), pick(SEPS), "1", pick(OFFS), "0", tags=("profile", "profile-k%d" % k)))
+    for _ in range(500 if quick else 5000):
+        k = pick([3, 3, 4, 5])
+        kids = [pick(CAT17) for _ in range(k)]
+        shape = profile_variant(rng, kids)
+        prof.append(mk_case(shape, pick(SEPS), pick(SEPS), pick(SEPS), pick(OFFS), pick(OFFS),
+                            tags=("profile", "profile-nested")))
+    for c, far in zip(prof, _driver_stats(prof)):
+        c.tags = c.tags + (("far=?",) if far is None else (("far>0",) if far > 0 else ("far=0",)))
+    cases.extend(prof)
+    # (d) histories
+    if not quick:
+        for shape in core.all_shapes_upto(7):
+            for a in _addrs(shape):
+                if a:
+                    cases.append(mk_case(shape, pick(SEPS), pick(SEPS), "1", "0", "0", tags=("hist-enum",),
+                                         ops=["L", "D" + _addr_str(a), "L"]))
+    nh = 2500 if quick else 25000
+    for k in range(nh):
+        r = rng.random()
+        if r < 0.4:
+            shape = core.random_shape(rng, rng.randint(6, 24))
+        elif r < 0.6:
+            shape = recent_parent_shape(rng, rng.randint(6, 24))
+        elif r < 0.85:
+            shape = profile_variant(rng, [pick(CAT17) for _ in range(pick([2, 3, 3, 4]))])
+        else:
+            shape = [_copy(pick(TST_LEFTS)), _copy(pick(TST_MIDS)), _copy(pick(TST_RIGHTS))]
+        ops = random_history(rng, shape, pick([1, 1, 2, 2, 3]))
+        if rng.random() < 0.4:
+            sib = sub = "1"
+        else:
+            sib, sub = pick(SEPS), pick(SEPS)
+        cases.append(mk_case(shape, sib, sub, pick(SEPS), pick(OFFS), pick(OFFS),
+                             tags=tuple(sorted({"edit-" + o[0] for o in ops if o != "L"})), ops=ops))
     return cases
 
 
 # ---------------------------------------------------------------- implementation side
 
-def _run_real(d):
-    """build a fresh Node tree (no x/mod/shift attributes), run the real reingold_tilford;
-    returns nodes in pre-order"""
+class BadHistory(Exception):
+    """the history itself is malformed (address outside the tree): not an outcome of bigtree"""
+
+
+def _build_fresh(shape, ctr):
+    from bigtree import Node
+    def go(s):
+        n = Node("f%d" % next(ctr))
+        n.children = [go(c) for c in s]
+        return n
+    return go(shape)
+
+
+def _node_at(root, addr):
+    n = root
+    for i in addr:
+        ch = n.children
+        if i >= len(ch):
+            raise BadHistory(addr)
+        n = ch[i]
+    return n
+
+
+def _preorder(root):
+    out = [root]
+    for c in root.children:
+        out.extend(_preorder(c))
+    return out
+
+
+def run_history(d, on_layout):
+    """run the history on real bigtree objects; after every layout call on_layout(k, root)"""
     from bigtree import reingold_tilford
-    root, nodes = core.build_node_tree(spec_from_shape(d["shape"]))
-    reingold_tilford(
-        root,
-        sibling_separation=float(Fraction(d["sib"])),
-        subtree_separation=float(Fraction(d["sub"])),
-        level_separation=float(Fraction(d["lvl"])),
-        x_offset=float(Fraction(d["xoff"])),
-        y_offset=float(Fraction(d["yoff"])),
-    )
-    return root, nodes
+    root, _nodes = core.build_node_tree(spec_from_shape(d["shape"]))
+    ctr = itertools.count()
+    k = 0
+    for op in d.get("ops") or ["L"]:
+        kind, body = op[0], op[1:]
+        if kind == "L":
+            reingold_tilford(
+                root,
+                sibling_separation=float(Fraction(d["sib"])),
+                subtree_separation=float(Fraction(d["sub"])),
+                level_separation=float(Fraction(d["lvl"])),
+                x_offset=float(Fraction(d["xoff"])),
+                y_offset=float(Fraction(d["yoff"])),
+            )
+            on_layout(k, root)
+            k += 1
+        elif kind == "D":
+            addr = [int(x) for x in body.split(".")]
+            _node_at(root, addr).parent = None
+        elif kind == "R":
+            p = _node_at(root, _parse_addr(body))
+            p.children = list(p.children)[::-1]
+        elif kind == "M":
+            a, b = body.split(">")
+            n = _node_at(root, [int(x) for x in a.split(".")])
+            n.parent = None
+            n.parent = _node_at(root, _parse_addr(b))
+        elif kind in "FE":
+            a, sh = body.split(":")
+            p = _node_at(root, _parse_addr(a))
+            fresh = _build_fresh(_parse_sh(sh), ctr)
+            if kind == "F":
+                p.children = [fresh] + list(p.children)
+            else:
+                fresh.parent = p
+        else:
+            raise BadHistory(op)
+    return root
 
 
 def impl(case):
+    outs = []
+    def rec(_k, root):
+        outs.append(" ".join("%r,%r" % (float(n.x), float(n.y)) for n in _preorder(root)))
     try:
-        _root, nodes = _run_real(case.data)
+        run_history(case.data, rec)
+    except BadHistory:
+        raise
     except Exception:
         return "rej"
-    return "ok " + " ".join("%r,%r" % (float(n.x), float(n.y)) for n in nodes)
+    return "ok " + " | ".join(outs)
 
 
 def _parse(out):
-    """'ok x,y x,y …' -> list of (Fraction, Fraction) (floats are converted exactly) or None"""
-    toks = out.split(" ")
-    if not toks or toks[0] != "ok":
+    """'ok x,y x,y | x,y …' -> list (per layout) of lists of (Fraction, Fraction), or None"""
+    if not out.startswith("ok"):
         return None
-    pts = []
-    for t in toks[1:]:
-        a, b = t.split(",")
-        pts.append((_num(a), _num(b)))
-    return pts
+    res = []
+    for part in out[2:].split("|"):
+        pts = []
+        for t in part.split():
+            a, b = t.split(",")
+            pts.append((_num(a), _num(b)))
+        res.append(pts)
+    return res
 
 
 def _num(s):
@@ -209,15 +577,16 @@ def _num(s):
 
 def _close(a, b):
     return a is not None and b is not None and len(a) == len(b) and all(
-        abs(p[0] - q[0]) <= EPS and abs(p[1] - q[1]) <= EPS for p, q in zip(a, b))
+        len(la) == len(lb) and all(abs(p[0] - q[0]) <= EPS and abs(p[1] - q[1]) <= EPS for p, q in zip(la, lb))
+        for la, lb in zip(a, b))
 
 
 _MODEL_CACHE: dict[str, str] = {}
 
 
 def compare(impl_out, model_out, case):
-    """tolerant numeric comparison: every coordinate within 1e-9 of the exact rational"""
-    if len(_MODEL_CACHE) < 200000:
+    """tolerant numeric comparison: every coordinate of every layout within 1e-9 of the exact rational"""
+    if len(_MODEL_CACHE) < 300000:
         _MODEL_CACHE[case.line] = model_out
     try:
         return _close(_parse(impl_out), _parse(model_out))
@@ -227,19 +596,14 @@ def compare(impl_out, model_out, case):
 
 # ---------------------------------------------------------------- oracle (model-free)
 
-def oracle(case):
+def _clauses(k, root, sib, sub, lvl, msgs):
     """the clauses of the statement, read off the real nodes' parent/children links and x, y"""
-    d = case.data
-    try:
-        root, nodes = _run_real(d)
-    except Exception as e:
-        return ["crash: reingold_tilford raised %s" % type(e).__name__]
-    sib, sub, lvl = Fraction(d["sib"]), Fraction(d["sub"]), Fraction(d["lvl"])
-    ids = core.IdMap(nodes)
-    msgs = []
+    nodes = _preorder(root)
+    num = {id(n): i for i, n in enumerate(nodes)}
+    ids = lambda n: num[id(n)]
+    tag = "" if k == 0 else "[layout %d] " % (k + 1)
     X = {id(n): Fraction(float(n.x)) for n in nodes}
     Y = {id(n): Fraction(float(n.y)) for n in nodes}
-    # levels, in left-to-right tree order, from the links only
     levels = []
     cur = [root]
     while cur:
@@ -248,29 +612,42 @@ def oracle(case):
     for di, lv in enumerate(levels):
         for a in lv:
             if abs(Y[id(a)] - Y[id(lv[0])]) > EPS:
-                msgs.append(f"levels: nodes {ids(lv[0])} and {ids(a)} of depth {di+1} have y {float(Y[id(lv[0])])} / {float(Y[id(a)])}")
+                msgs.append(f"levels: {tag}nodes {ids(lv[0])} and {ids(a)} of depth {di+1} have y {float(Y[id(lv[0])])} / {float(Y[id(a)])}")
         if di + 1 < len(levels):
             dy = Y[id(lv[0])] - Y[id(levels[di + 1][0])]
             if abs(dy - lvl) > EPS:
-                msgs.append(f"levels: depth {di+1} and {di+2} differ by {float(dy)} instead of {float(lvl)}")
+                msgs.append(f"levels: {tag}depth {di+1} and {di+2} differ by {float(dy)} instead of {float(lvl)}")
     for n in nodes:
         ch = n.children
         if ch:
             mid = (X[id(ch[0])] + X[id(ch[-1])]) / 2
             if abs(X[id(n)] - mid) > EPS:
-                msgs.append(f"midpoint: node {ids(n)} x={float(X[id(n)])} but first/last child mid-point is {float(mid)}")
+                msgs.append(f"midpoint: {tag}node {ids(n)} x={float(X[id(n)])} but first/last child mid-point is {float(mid)}")
         for a, b in zip(ch, ch[1:]):
             if X[id(b)] - X[id(a)] < sib - EPS:
-                msgs.append(f"sibling_separation: children {ids(a)},{ids(b)} of {ids(n)} are {float(X[id(b)] - X[id(a)])} apart (< {float(sib)})")
+                msgs.append(f"sibling_separation: {tag}children {ids(a)},{ids(b)} of {ids(n)} are {float(X[id(b)] - X[id(a)])} apart (< {float(sib)})")
         if X[id(n)] < -EPS:
-            msgs.append(f"nonneg: node {ids(n)} has x={float(X[id(n)])}")
+            msgs.append(f"nonneg: {tag}node {ids(n)} has x={float(X[id(n)])}")
     m = min(sib, sub)
     for di, lv in enumerate(levels):
         for a, b in zip(lv, lv[1:]):
             if a.parent is b.parent:
                 continue  # sibling clause above (sib >= min)
             if X[id(b)] - X[id(a)] < m - EPS:
-                msgs.append(f"cousin_separation: nodes {ids(a)},{ids(b)} of depth {di+1} are {float(X[id(b)] - X[id(a)])} apart (< {float(m)})")
+                msgs.append(f"cousin_separation: {tag}nodes {ids(a)},{ids(b)} of depth {di+1} are {float(X[id(b)] - X[id(a)])} apart (< {float(m)})")
+
+
+def oracle(case):
+    """every clause after every layout of the history"""
+    d = case.data
+    sib, sub, lvl = Fraction(d["sib"]), Fraction(d["sub"]), Fraction(d["lvl"])
+    msgs = []
+    try:
+        run_history(d, lambda k, root: _clauses(k, root, sib, sub, lvl, msgs))
+    except BadHistory:
+        raise
+    except Exception as e:
+        return msgs + ["crash: reingold_tilford history raised %s" % type(e).__name__]
     return msgs
 
 
@@ -298,9 +675,9 @@ def replay_known(entry) -> bool:
     nm = names(w["tree"])
     q = lambda v: str(Fraction(v))
     c = mk_case(sh, q(w["sibling_separation"]), q(w["subtree_separation"]), q(w["level_separation"]), "0", "0")
-    _root, nodes = _run_real(c.data)
-    by = dict(zip(nm, nodes))
-    still = abs(by["e"].x - 2.0) <= 1e-9 and abs(by["h"].x - 2.5) <= 1e-9
+    got = {}
+    run_history(c.data, lambda k, root: got.update(zip(nm, [float(n.x) for n in _preorder(root)])))
+    still = abs(got["e"] - 2.0) <= 1e-9 and abs(got["h"] - 2.5) <= 1e-9
     return still and any(m.startswith("cousin_separation") for m in oracle(c))
 
 
@@ -328,11 +705,36 @@ def _remove_leaf_variants(shape):
                 yield shape[:k] + [v] + shape[k + 1:]
 
 
+def _valid(d) -> bool:
+    try:
+        cur = d["shape"]
+        for op in d["ops"]:
+            cur = apply_op_shape(cur, op)
+        return True
+    except Exception:
+        return False
+
+
 def shrink(case):
-    d = case.data
+    d = dict(case.data)
+    d.setdefault("ops", ["L"])
+    ops = d["ops"]
+    if len(ops) > 1:
+        # shorter histories first: cut after an earlier layout, drop single edits / layouts
+        cands = []
+        for i, op in enumerate(ops[:-1]):
+            if op == "L":
+                cands.append(ops[:i + 1])
+        for i in range(len(ops) - 1):
+            cands.append(ops[:i] + ops[i + 1:])
+        for c in cands:
+            nd = dict(d, ops=c)
+            if c and c[-1] == "L" and _valid(nd):
+                yield Case(_line(nd), nd, case.tags)
     for v in _remove_leaf_variants(d["shape"]):
         nd = dict(d, shape=v)
-        yield Case(_line(nd), nd, case.tags)
+        if _valid(nd):
+            yield Case(_line(nd), nd, case.tags)
     for key, val in (("xoff", "0"), ("yoff", "0"), ("lvl", "1"), ("sib", "1"), ("sub", "1")):
         if d[key] != val:
             nd = dict(d); nd[key] = val
